@@ -1,6 +1,6 @@
 ------------------------------ MODULE MC_Conv ------------------------------
 (* generator of exact convolution values (C14) and self-checks of the reference *)
-EXTENDS Convolve, TLC, Json, IOUtils, FiniteSets
+EXTENDS ConvAlgo, TLC, Json, IOUtils, FiniteSets
 CONSTANTS MaxOrder, MaxKernel, Denom, MaxSum
 Src(id) == CASE id = 0 -> [n |-> 0, t |-> <<0, 1, 3, 4>>, c |-> <<2, -1, 3>>]
              [] id = 1 -> [n |-> 1, t |-> <<0, 1, 3, 4, 6>>, c |-> <<1, -2, 3>>]
@@ -27,7 +27,7 @@ Kern(id) == CASE id = 1 -> <<R(0), R(1)>>                                       
 (* (Keep = 1: everything; the environment variable CONVSALT rotates the    *)
 (* choice with the seed).                                                  *)
 (***************************************************************************)
-CONSTANTS Keep, OnlyN, OnlyF, OnlyQ      \* Only* = 99: no restriction (used to probe the 32-bit limits)
+CONSTANTS Keep, OnlyN, OnlyF, OnlyQ, AlgoSum     \* AlgoSum: largest order + kernel degree for which the algorithm transcription is evaluated      \* Only* = 99: no restriction (used to probe the 32-bit limits)
 Salt == IF "CONVSALT" \in DOMAIN IOEnv THEN atoi(IOEnv.CONVSALT) ELSE 0
 Fam(f, len) == CASE f = 1 -> [i \in 1 .. len |-> i - 1]
                  [] f = 2 -> [i \in 1 .. len |-> 3 * ((i - 1) \div 2) + ((i - 1) % 2)]                  \* 0 1 3 4 6 7 ...
@@ -69,7 +69,13 @@ Check == kern # {} =>
         allones == \A i \in 1 .. Len(s.c) : s.c[i] = 1
         (* an all-ones table is identically 1 on its fully supported range [t_n, t_m]; convolved with a unit-area kernel it is 1 on [t_n + tau_q, t_m + tau_0] *)
         OnesOK == allones => \A x \in xs : (RLe(RAdd(R(s.t[s.n + 1]), tau[Len(tau)]), x) /\ RLe(x, RAdd(R(s.t[Len(s.t) - s.n]), tau[1]))) => ConvValue(s.c, s.t, s.n, tau, x) = One
+        (* the algorithm of the code (ConvAlgo) gives the spline whose values are the exact convolution: compared strictly between *)
+        (* the breakpoints too (right-continuous evaluation; breakpoints below the top behave the same, the top one is left out)   *)
+        AlgoOK == (s.n + Len(tau) - 1 <= AlgoSum) =>
+                     LET d == ConvCoefs(s.c, s.t, s.n, tau) IN
+                     \A x \in xs : RLt(x, hi) => ValueOnRho(d, rho, s.n + Len(tau) - 1, x, Denom) = ConvValue(s.c, s.t, s.n, tau, x)
     IN  /\ Assert(OnesOK, <<"all-ones not preserved", s, tau>>)
+        /\ Assert(AlgoOK, <<"blossoming algorithm differs from the exact convolution", s, tau>>)
         /\ PrintT(ToJson([n |-> s.n, t |-> s.t, c |-> s.c, tau |-> [i \in 1 .. Len(tau) |-> RatJ(tau[i])], order |-> ConvOrder(s.n, tau),
                           knots |-> [i \in 1 .. Len(rho) |-> RatJ(rho[i])],
                           pts |-> LET RECURSIVE Q(_) Q(S) == IF S = {} THEN <<>> ELSE LET x == CHOOSE y \in S : \A z \in S : RLe(y, z) IN <<<<RatJ(x), RatJ(ConvValue(s.c, s.t, s.n, tau, x))>>>> \o Q(S \ {x}) IN Q(xs)]))
